@@ -87,6 +87,12 @@ def eventsOf (phases : List (List (Nat × Nat))) (ds : List Decision) (posts : N
 def resultOfVal (v : Val) : Result := match v.asResult? with | some r => r | none => newResult v
 
 def process (sc : ScJ) (obs : ObsJ) : Except String Json := do
+  -- the harness could not carry out its schedule on the implementation (no quiescence within the watchdog, or
+  -- a task it had to release was not parked): a liveness / protocol failure of the implementation
+  if sc.decisions.any (·.startsWith "bad:") then
+    return Json.mkObj [("agree", Json.bool false), ("spec", Json.mkObj [("C06", Json.bool false), ("C07", Json.bool false), ("C08", Json.bool false), ("C09", Json.bool false), ("C11", Json.bool false), ("C02", Json.bool false)]),
+      ("specModel", Json.mkObj [("C06", Json.bool true), ("C07", Json.bool true), ("C08", Json.bool true), ("C09", Json.bool true), ("C11", Json.bool true), ("C02", Json.bool true)]), ("nontrivial", Json.mkObj []),
+      ("model", Json.str "the implementation hung or left the gating protocol; the model does neither")]
   let c ← match cfgOf sc with | some c => pure c | none => throw "bad scenario"
   let ds ← match sc.decisions.mapM parseDecision with | some d => pure d | none => throw "bad decision"
   let prepVals ← match parseVals sc.prep with | some v => pure v | none => throw "bad prep"
